@@ -170,6 +170,11 @@ const variantPodReady = 8
 
 // variantPodPending = Pending without any condition yet (InProgress, but not unschedulable)
 const variantPodPending = 10
+
+// variantPodGated = Pending, PodScheduled=False with another reason (SchedulingGated);
+// variantPodStarting = Pending, PodScheduled=True: both InProgress and NOT unschedulable
+const variantPodGated = 11
+const variantPodStarting = 12
 const slowAnnotation = "verif.c16/slow-status-read"
 
 // variantErr: like variant 0, but the status computation of this version FAILS
@@ -237,6 +242,13 @@ func buildObject(o oid, variant int) *unstructured.Unstructured {
 			cond("Ready", "True")
 		} else if variant == variantPodPending {
 			_ = unstructured.SetNestedField(u.Object, "Pending", "status", "phase")
+		} else if variant == variantPodGated || variant == variantPodStarting {
+			_ = unstructured.SetNestedField(u.Object, "Pending", "status", "phase")
+			c := map[string]interface{}{"type": "PodScheduled", "status": "False", "reason": "SchedulingGated", "message": "gated"}
+			if variant == variantPodStarting {
+				c = map[string]interface{}{"type": "PodScheduled", "status": "True"}
+			}
+			_ = unstructured.SetNestedSlice(u.Object, []interface{}{c}, "status", "conditions")
 		} else {
 			_ = unstructured.SetNestedField(u.Object, "Pending", "status", "phase")
 			_ = unstructured.SetNestedSlice(u.Object, []interface{}{
@@ -1361,9 +1373,12 @@ func unschedulableScripts(tier string) []*rscript {
 			l = append(l,
 				// (a watched object that is merely InProgress -- Secret b, Reconciling -- gets no re-check)
 				// and neither does a pod that is Pending without an Unschedulable condition -- Pod c)
-				&rscript{label: "unschedulable:stays", root: root, watched: []oid{pod, {3, 1, 1}, {3, 1, 2}, {kPod, 1, 3}},
+				// nor one whose PodScheduled condition is False for another reason (Pod d) or True (Pod e)
+				&rscript{label: "unschedulable:stays", root: root,
+					watched: []oid{pod, {3, 1, 1}, {3, 1, 2}, {kPod, 1, 3}, {kPod, 1, 4}, {kPod, 1, 5}},
 					steps: []rstep{{"add", pod, variantUnsched}, {"add", other, variantUnsched}, {"add", oid{3, 1, 1}, 0},
-						{"add", oid{3, 1, 2}, 4}, {"add", oid{kPod, 1, 3}, variantPodPending}, tick},
+						{"add", oid{3, 1, 2}, 4}, {"add", oid{kPod, 1, 3}, variantPodPending},
+						{"add", oid{kPod, 1, 4}, variantPodGated}, {"add", oid{kPod, 1, 5}, variantPodStarting}, tick},
 					late: map[oid][]string{pod: {"SFailed"}}},
 				&rscript{label: "unschedulable:scheduled-in-time", root: root, watched: []oid{pod},
 					steps: []rstep{{"add", pod, variantUnsched}, {"update", pod, variantPodReady}, tick}},
